@@ -1369,6 +1369,14 @@ def r_fields(ctx) -> RuleResult:
         if not ok:
             res.fail(Finding("R-FIELDS", fi.module.rel, fi.qualname, norm(t), f"bond line: the bonds are numbered {first}, the format numbers them from 1", line=t.lineno))
     ok = {str(e) for e in ends} == bond_end_pos and len(ends) == 2
+    extras = bond_end_pos - {str(e) for e in ends}
+    if not ok and len(ends) == 2 and {str(e) for e in ends} <= bond_end_pos:
+        # the reader's endpoints carry more than the two bond-line tokens: what it looks the atoms up by.  The atom number
+        # of the atom line is what a bond end names, so a table from atom numbers to positions adds just that token
+        if extras <= {str(pos["index"])}:
+            ok = True
+        else:
+            raise AnalysisError(f"R-FIELDS: the reader's bond endpoints come from the bond-line tokens {sorted(bond_end_pos)}: the writer's {ends} and others that the analysis does not keep apart")
     res.inst(fi.fq, f"bond line: endpoints (label + 1) are tokens {ends}; reader reads {sorted(bond_end_pos)}", "ok" if ok else "fail")
     if not ok:
         res.fail(Finding("R-FIELDS", fi.module.rel, fi.qualname, norm(t), f"bond line: endpoints at tokens {ends} (as label + 1), reader reads tokens {sorted(bond_end_pos)} and subtracts 1", line=t.lineno))
